@@ -56,7 +56,7 @@ fn iv_class(iv: &[u8]) -> &'static str {
 }
 
 /// Valid inputs: ciphertext == reference, round trip, lengths.
-fn check_valid(c: &MC) -> CaseResult {
+pub fn check_valid(c: &MC) -> CaseResult {
     let m = mode_of(c.mode);
     let (key, iv) = (arr16(&c.key), arr16(&c.iv));
     let obj = lib_obj(m, &key)?;
@@ -82,7 +82,7 @@ fn check_valid(c: &MC) -> CaseResult {
 
 /// Arbitrary "ciphertext" bytes: decrypt must agree with the reference decryptor
 /// (Ok with the same plaintext, or Err exactly where the standard mode has no plaintext).
-fn check_decrypt_any(c: &MC) -> CaseResult {
+pub fn check_decrypt_any(c: &MC) -> CaseResult {
     let m = mode_of(c.mode);
     let (key, iv) = (arr16(&c.key), arr16(&c.iv));
     let obj = lib_obj(m, &key)?;
@@ -121,7 +121,7 @@ fn check_decrypt_any(c: &MC) -> CaseResult {
 }
 
 /// IV of a wrong length: both directions must return Err.
-fn check_bad_iv(c: &MC) -> CaseResult {
+pub fn check_bad_iv(c: &MC) -> CaseResult {
     let m = mode_of(c.mode);
     let key = arr16(&c.key);
     let obj = lib_obj(m, &key)?;
